@@ -91,7 +91,10 @@ fn witnesses(ctx: &mut Ctx) {
     let prop = ctx.prop.clone();
     match prop.as_str() {
         "C02" => tokprops::c02_witness_many_nodes(ctx),
-        "C03" => tokprops::c03_witness_astral(ctx),
+        "C03" => {
+            tokprops::c03_witness_astral(ctx);
+            tokprops::c03_witness_long_runs(ctx);
+        }
         "C06" | "C13" if ctx.flavour != "avx2" => tokprops2::c06_witness_65536_ids(ctx, &prop),
         "C07" => dictprops::c07_witnesses(ctx),
         "C10" => miscprops::c10_witnesses(ctx),
